@@ -218,6 +218,15 @@ def gen_plan(rng):
     # the same names in every sub-directory, but from the second one on as
     # another kind (a link first, then a file or directory of that name)
     plan['sub_flip'] = rng.chance(40)
+
+    if pop == 'get' and rng.chance(15):
+        # two directories matched by a pattern, the same name in both
+        plan['listing'] = [[rng.choice(['dir1', 'ok', 'a']), 'd'],
+                           [rng.choice(['sub', 'lnk', 'deep']), 'd']]
+        plan['sub'] = [[rng.choice(['x', 'ok', 'new']), 'l']] + \
+            plan['sub'][:rng.below(3)]
+        plan['glob'] = rng.choice(['/src/*/*', '/s*/*/*', '/src/*/[a-z]*'])
+        plan['sub_flip'] = True
     return plan
 
 
